@@ -375,3 +375,16 @@ void bad_rec_empty__before_reduction(ep_t r, const ep_t *t, const bn_t k) {
 	bn_rec_naf(naf, &l, m, 4);
 	ep_copy(r, t[naf[l - 1] / 2]);
 }
+
+/* ------------------------------------------------------------------ SHIFT-WIDEN */
+int ok_shift__digit_type(const dig_t *k, size_t len, int i) {
+	const dig_t bit = (dig_t)1 << i;
+	int tab = 1 << (i & 3);
+	return (k[0] & bit) != 0 && tab > 0;
+}
+
+/* the mask is built in int: bits 31..63 of the digits are never seen */
+int bad_shift_widen__int_mask(const dig_t *k, size_t len, int i) {
+	const dig_t bit = 1 << i;
+	return (k[0] & bit) != 0;
+}
